@@ -37,6 +37,22 @@ def run(ctx):
             for i, ln in enumerate(fh):
                 if i % 3001 == 7 and len(ctx.cov["samples"]) < 3:
                     ctx.cov["samples"].append(json.loads(ln))
+    # histogram and aggregations over split documents: AggCases.tla (C06's module) emits (corpus, partition into
+    # <=3 fractions, aggregation, histogram interval) with the answer of ONE fraction holding everything; the
+    # agg driver asks the iterative searcher (fpi 1 / all), a manual reverse merge and the proxy path
+    adrv = vlib.build_driver("agg")
+    acf = os.path.join(ctx.scratch, "mf-agg.jsonl")
+    r = vlib.run_tlc(ctx, "AggCases.tla", "AggCases_exh.cfg" if quick else "AggCases_exh3.cfg", case_file=acf, timeout=3400)
+    if r.violated:
+        raise vlib.Infra("TLC: %s violated in AggCases.tla" % r.violated)
+    vlib.require_tlc_ok(r, "AggCases (for C05)")
+    mism, summ, _ = vlib.run_cases(ctx, adrv, ["-workers", str(vlib.NCPU)], acf, label="split-agg")
+    for k in tot:
+        tot[k] += summ[k]
+    for m in mism:
+        a = ((m.get("case") or {}).get("q") or {}).get("agg") or {}
+        ctx.violation("multifrac:agg:%s:%s:%s" % (a.get("func"), m.get("path"), (m.get("what") or "")[:24]), m,
+                      what="histogram / aggregation over split documents differs from one fraction holding everything: " + str(m.get("what"))[:160])
     ctx.cov["traces_validated_against_impl"] = tot["cases"]
     ctx.cov["evaluations"] = tot["evals"]
     ctx.cov["distinct_nontrivial"] = tot["nontrivial"]
@@ -44,6 +60,6 @@ def run(ctx):
     ctx.cov["rule"] = ("store: every set of 4 IDs over timestamps 1..3 x every partition into <=3 fractions (last one active or sealed) x fpi 1..3 x "
                        "limit 0..5 x both orders x total on/off, exhaustive; proxy: random 5-ID corpora, each document on shard 1, 2 or both, "
                        "<=2 fractions per shard, optional second replica with a different layout asked first, offset/size 0..3, ranges cutting the ends; "
-                       "non-trivial = non-empty expected page over >1 fraction")
+                       "non-trivial = non-empty expected page over >1 fraction; histogram/aggregations: every AggCases case (corpus x partition into <=3 fractions x aggregation x interval) on four merge paths")
     ctx.assumptions += ["totals are compared only when no document is stored on both shards (cross-shard duplicates are only removed from the ID list; C17 states exact totals for same-fraction repeats only)",
                         "the query is the match-all query; query variety is C02's subject"]
